@@ -80,7 +80,7 @@ def with_values(seq):
     out = []
     for c, op in enumerate(seq, 1):
         k = op[0]
-        n = 3 if c % 4 == 0 else 2     # mostly equal lengths, sometimes not (las.data -> ValueError)
+        n = 3 if c % 4 == 0 else 1 if c % 5 == 0 else 2     # mostly equal lengths, sometimes not (las.data -> ValueError); length 1 too
         if k == "append_curve":
             out.append([k, op[1], "u%d" % c, "v%d" % c, "d%d" % c, arr(c, n)])
         elif k == "append_shared":
@@ -143,12 +143,15 @@ def cells(a):
     return [tag(x) for x in a.tolist()]
 
 
+_LIVE = {}        # {"cells": [...], "arr": ndarray}: the array object of a LIVE curve handed back to the API (ops *_from)
 SHARED_CELLS = ["7", "8"]
 _SHARED = {}      # per history: the one ndarray behind every curve created with SHARED_CELLS (cleared by run_sequence / run_pair)
 
 
 def nparr(c):
     import numpy as np
+    if _LIVE.get("cells") == list(c):
+        return _LIVE["arr"]
     if list(c) == SHARED_CELLS:
         # aliasing on purpose: lasio stores the caller's array; no operation of the curve API may change it in place, so the
         # other curves / the other LASFile holding the same object keep their values (the list model holds copies)
@@ -215,7 +218,9 @@ def apply_real(las, op):
             las[op[1]] = nparr(op[2])
         elif k == "set_data":
             shape = op[4]
-            a = np.array([[float(x) for x in r] for r in op[1]], dtype=float).reshape(shape[0], shape[1])
+            a = np.array([[float(x) for x in r] for r in op[1]], dtype=float)
+            if a.shape != (shape[0], shape[1]):          # (empty shapes); otherwise an OWNING array, as a caller's table is
+                a = a.reshape(shape[0], shape[1])
             route = op[5] if len(op) > 5 else None
             if route == "prop":
                 las.data = a
@@ -434,12 +439,25 @@ def run_sequence(run, seq, start, kind):
     tr = bool(las.curves.mnemonic_transforms)
     case = {"start": start, "ops": seq}
     steps, raised = [], False
-    for n, op in enumerate(seq):
+    conc = []
+    for op in seq:
+        _LIVE.clear()
+        if op[0] in ("setitem_from", "update_from"):
+            # the array OBJECT of a live curve goes back into the API; for the models it is an ordinary array of these cells
+            try:
+                live = las[op[2]]
+            except Exception:
+                continue
+            _LIVE.update(cells=cells(live), arr=live)
+            op = ["setitem_data", op[1], cells(live)] if op[0] == "setitem_from" else ["update_ix", op[1], cells(live), None, None, None]
+        conc.append(op)
+        n = len(conc) - 1
         keys = [c.mnemonic for c in list.__iter__(las.curves)]
         want = lm.apply(op, keys)
         r = apply_real(las, op)
+        _LIVE.clear()
         raised = raised or r != "ok"
-        c2 = {"start": start, "ops": seq[:n + 1]}
+        c2 = {"start": start, "ops": conc[:n + 1]}
         if r != want:
             run.fail("result", c2, dict(expected=want, observed=r))
         oracle_views(run, las, lm, c2)
@@ -467,9 +485,10 @@ def run_sequence(run, seq, start, kind):
         st = dict(r=r, curves=dump(las), spec=lm.state())
         st.update(views(las))
         steps.append(st)
+    case = {"start": start, "ops": conc}
     run.case(case, nontrivial=(raised or len(las.curves) >= 2),
-             tags=[kind, start, "len=%d" % len(seq), "curves=%d" % min(len(las.curves), 6)])
-    req = {"op": "cv.run", "tr": tr, "init": init, "ops": [model_op(o) for o in seq], "probes": PROBES}
+             tags=[kind, start, "len=%d" % len(conc), "curves=%d" % min(len(las.curves), 6)])
+    req = {"op": "cv.run", "tr": tr, "init": init, "ops": [model_op(o) for o in conc], "probes": PROBES}
     return case, req, steps
 
 
@@ -523,6 +542,17 @@ def sequences(run):
         yield with_values(seq), "random"
 
 
+VIEW_OPS = [["setitem_from", "X", "Y"], ["setitem_from", "Y", "Z"], ["setitem_from", "Z", "X"], ["update_from", 0, "Z"], ["update_from", 2, 0],
+            ["update_from", 1, "X"], ["delete_ix", 1], ["setitem_from", "NEW", "X"], ["append_curve", "B"], ["insert_curve", 0, "A"],
+            ["set_data", 2, 3, None, False]]
+
+
+def views_sequence(rng):
+    """curves that are column VIEWS of one 2-D block (set_data with an owning array), then arrays taken from live curves are
+    handed back to the API: `las['X'] = las['Y']`, update_curve(ix=0, data=las['Z']), ..."""
+    return [["set_data", 2, 3, ["X", "Y", "Z"], False]] + [rng.choice(VIEW_OPS) for _ in range(rng.randint(1, 4))]
+
+
 def alias_sequence(rng):
     n = rng.randint(3, 6)
     seq = [["append_shared", "S"]] * rng.choice([1, 2, 2, 3])
@@ -557,6 +587,10 @@ def run(run):
         if len(batch) >= 128:
             flush()
     flush()
+    for _ in range(run.budget(300, 6000)):
+        case, req, steps = run_sequence(run, with_values(views_sequence(run.rng)), run.rng.choice(STARTS), "views")
+        if steps:
+            batch.append((case, req, steps, False))
     for _ in range(run.budget(300, 6000)):
         case, req, steps = run_sequence(run, with_values_alias(alias_sequence(run.rng)), run.rng.choice(STARTS), "aliasing")
         batch.append((case, req, steps, False))
